@@ -9,10 +9,12 @@ import TantivyModel.Model.BlockCursor
 import TantivyModel.Model.Recorder
 import TantivyModel.Model.JsonPositions
 import TantivyModel.Model.PositionReader
+import TantivyModel.Proofs.VInt32Source
 /-!
 Line protocol of the C07 model (see harness/src/props/c07.rs):
 
 * `vint_enc <n>` → hex; `vint_dec <hex>` → `<n> <consumed>` | `err`
+* `vint32_src <n>` → hex of the bytes of the rs2lean translation of serialize_vint_u32
 * `vint32_enc <n>` (serialize_vint_u32) → hex; `vint32_dec <hex>` (read_u32_vint_no_advance) → `<n> <len>` | `err`
 * `recycle <opt> <df1> <hex1> <A<k>|D|S<target>> <df2> <hex2>` → `<docs>|<tfs>` drained from a block cursor opened on list 1, moved, then reset to list 2
 * `tis_write <df:ps:pe:qs:qe;…>` → hex of the TermInfoStore bytes; `tis_get <hex> <ord>` → `df:ps:pe:qs:qe` | `err`
@@ -172,6 +174,10 @@ def handle : List String → String
         (hexOfNats (VInt.serializeU32 Gen.Postings.VINT32_LADDER Gen.Postings.VINT32_LAST_BYTES
           Gen.Postings.VINT32_RADIX Gen.Postings.VINT32_STOP_BIT n)).getD "bad-op"
       else "bad-op"
+    | none => "bad-op"
+  | ["vint32_src", n] =>
+    match n.toNat? with
+    | some n => if n < 2 ^ 32 then (hexOfNats (VInt.packedBytes (BitVec.ofNat 32 n))).getD "bad-op" else "bad-op"
     | none => "bad-op"
   | ["vint32_dec", h] =>
     match natsOfHex h with
